@@ -38,7 +38,15 @@ type Violation struct {
 
 // Outcome is what one execution of one script observed.
 type Outcome struct {
-	FP          Fingerprint       `json:"-"`
+	FP Fingerprint `json:"-"`
+	// FPR, when a world fills it (HasFPR), is the fingerprint of the results
+	// only, without anything that depends on the path the code under test took
+	// (yield counts, switch positions). Two executions whose FP differ but
+	// whose FPR agree executed a tree whose path is not a function of the
+	// script (it ranges over a Go map, say): that is recorded, not treated as
+	// nondeterminism of the simulator.
+	FPR         Fingerprint       `json:"-"`
+	HasFPR      bool              `json:"-"`
 	Violations  []Violation       `json:"violations,omitempty"`
 	Faults      map[string]int64  `json:"faults,omitempty"`
 	Probes      map[string]int64  `json:"probes,omitempty"`
@@ -137,6 +145,8 @@ type WorkerResult struct {
 	PanicSample string            `json:"panic_sample,omitempty"`
 	Samples     []*Script         `json:"samples"`
 	FPByRun     map[string]string `json:"fp_by_run,omitempty"`
+	FPRByRun    map[string]string `json:"fpr_by_run,omitempty"`
+	PathVaries  int               `json:"path_varies,omitempty"`
 	Infra       []string          `json:"infra,omitempty"`
 	WallS       float64           `json:"wall_s"`
 	DoubleRuns  int               `json:"double_runs"`
@@ -238,7 +248,7 @@ func WorkerMain(t *testing.T, w World) {
 	res := &WorkerResult{
 		World: w.Name(), Tier: os.Getenv("SIM_TIER"), Seed: envU64("VERIF_SEED", 1),
 		From: envInt("SIM_FROM", 0), To: envInt("SIM_TO", 1),
-		Faults: map[string]int64{}, Probes: map[string]int64{}, FPByRun: map[string]string{},
+		Faults: map[string]int64{}, Probes: map[string]int64{}, FPByRun: map[string]string{}, FPRByRun: map[string]string{},
 	}
 	if res.Tier == "" {
 		res.Tier = "quick"
@@ -313,6 +323,9 @@ func WorkerMain(t *testing.T, w World) {
 		fp := o.FP.Sum()
 		if i < recordBelow {
 			res.FPByRun[strconv.Itoa(i)] = fp
+			if o.HasFPR {
+				res.FPRByRun[strconv.Itoa(i)] = o.FPR.Sum()
+			}
 		}
 		if msg, ok := o.Notes["infra"]; ok {
 			res.Infra = append(res.Infra, fmt.Sprintf("run %d: %s", i, msg))
@@ -320,7 +333,9 @@ func WorkerMain(t *testing.T, w World) {
 		if doubleEvery > 0 && i%doubleEvery == 0 {
 			o2 := runOnce(t, w, s, fmt.Sprintf("r%d.again", i))
 			res.DoubleRuns++
-			if o2.FP.Sum() != fp {
+			if o2.FP.Sum() != fp && o.HasFPR && o2.HasFPR && o.FPR.Sum() == o2.FPR.Sum() {
+				res.PathVaries++
+			} else if o2.FP.Sum() != fp {
 				res.Infra = append(res.Infra, fmt.Sprintf("nondeterminism: run %d seed %d fingerprints %s vs %s", i, runSeed, fp, o2.FP.Sum()))
 			}
 		}
